@@ -232,6 +232,9 @@ func jobsFor(L *Loaded, id string, opt runOpts) ([]unitJob, []*UnitResult) {
 		if c.kind != "closure" || (id != "" && !contractMentions(c, id)) {
 			continue
 		}
+		if _, bodyOnly := c.opts["body-only"]; bodyOnly {
+			continue // loop invariants for a literal verified at its creation site (closure-spec)
+		}
 		var hits []*ssa.Function
 		var walk func(f *ssa.Function)
 		walk = func(f *ssa.Function) {
@@ -339,21 +342,44 @@ func jobsFor(L *Loaded, id string, opt runOpts) ([]unitJob, []*UnitResult) {
 			}
 			if types.Implements(rt, it) {
 				fns = append(fns, f)
+			} else if named.TypeParams().Len() == 1 && named.TypeArgs().Len() == 0 {
+				// generic interface: try the type arguments the program instantiates generics with
+				for _, ta := range L.instTypeArgs() {
+					inst, err := types.Instantiate(nil, named, []types.Type{ta}, true)
+					if err != nil {
+						continue
+					}
+					if ii, ok := inst.Underlying().(*types.Interface); ok && types.Implements(rt, ii) {
+						fns = append(fns, f)
+						break
+					}
+				}
 			}
 		}
 		sort.Slice(fns, func(i, j int) bool { return fns[i].String() < fns[j].String() })
 		for _, fn := range fns {
 			fn := fn
 			cc := *c
+			if fc := L.contractOf(fn); fc != nil {
+				// the implementation's own block supplies the proof annotations (loop invariants, function literals,
+				// assertions) and may add preconditions; what is proved is the contract of the interface method
+				cc = *fc
+				cc.props, cc.safetyProps = c.props, c.safetyProps
+				cc.requires = append(append([]clause{}, c.requires...), fc.requires...)
+				cc.ensures = c.ensures
+				cc.assigns, cc.assignsNone = c.assigns, c.assignsNone
+				cc.opts = map[string]string{}
+				for k, v := range fc.opts {
+					cc.opts[k] = v
+				}
+				for k, v := range c.opts {
+					cc.opts[k] = v
+				}
+				fc.used = true
+			}
 			cc.implOf = msig
 			cc.implIface = named
 			cc.kind = "func"
-			if fc := L.contractOf(fn); fc != nil {
-				// the implementation's own block supplies loop invariants (and may add preconditions)
-				cc.invs = fc.invs
-				cc.requires = append(append([]clause{}, cc.requires...), fc.requires...)
-				fc.used = true
-			}
 			jobs = append(jobs, unitJob{name: shortFuncName(fn) + "$impl", run: func() *UnitResult { return VerifyFunc(L, fn, &cc, opt) }})
 		}
 	}
